@@ -32,6 +32,7 @@ type exchange struct {
 	open   bool
 	hdr    http.Header // client's request headers at the time of the call
 	fg304  []string    // tags of 304s received by foreground calls
+	cancel int         // the caller cancels its context (1: after the return, 2: before the call)
 }
 
 // sentBody remembers the exact bytes sent for a body token.
@@ -67,6 +68,8 @@ type World struct {
 	varyTab  map[string][]int
 	effHdr   map[string]http.Header // tok -> end-to-end headers expected now (after the 304s applied so far)
 	tagNS    map[string]bool        // tag -> the response carried no-store (known by construction)
+	fuzzy    map[string]bool        // tok -> a background 304 may or may not have been applied (timeout / cancellation race)
+	lateTag  map[string]bool        // tag of a background answer that arrived at or after the deadline
 	servedX  map[int]string         // exchange -> body token it was answered with from the store
 	bg304    map[int][]string       // exchange -> tags of 304s its background revalidation received
 	hangs    []chan struct{}
@@ -90,6 +93,8 @@ func newWorld(sc *Scenario, log *EventLog, seed, baseSeed int64) *World {
 		varyTab: map[string][]int{},
 		effHdr:  map[string]http.Header{},
 		tagNS:   map[string]bool{},
+		fuzzy:   map[string]bool{},
+		lateTag: map[string]bool{},
 		servedX:  map[int]string{},
 		bg304:   map[int][]string{},
 		scnSeed: seed,
@@ -539,8 +544,14 @@ func (o *Origin) RoundTrip(req *http.Request) (*http.Response, error) {
 	}
 	if bg == 1 && kind == "304" {
 		w.mu.Lock()
+		late := e.cancel != 0 || req.Context().Err() != nil || time.Since(t0) >= time.Duration(swrEffective(w.sc.Opt))*time.Millisecond
+		if late {
+			w.lateTag[tag] = true
+		}
 		if tk, ok := w.servedX[x]; ok {
-			if a.CCP == 0 || !contains(a.Fl, "no-store") {
+			if late {
+				w.fuzzy[tk] = true
+			} else if a.CCP == 0 || !contains(a.Fl, "no-store") {
 				w.apply304(tk, tag)
 			}
 		} else {
